@@ -12,7 +12,7 @@ repeated here."""
 import json
 from vlib import core, httpgen as hg
 
-GRAPHS = ["G1", "G2", "G3", "G4", "G5", "G6", "G7", "G8", "G9", "G10"]
+GRAPHS = ["G1", "G2", "G3", "G4", "G5", "G6", "G7", "G8", "G9", "G10", "G11"]
 KNOWN_DEVIATIONS = ["client.required_user_type_nil_deref", "views.required_nested_result_unchecked"]
 MAXLEN = 3
 
